@@ -33,7 +33,7 @@ RULE = ("per model (defaults of HEM/Merton/VG/CGMY, one CGMY draw per activity b
         "when x^n*nu is not integrable at a 0 inside the closed interval (VG: n = 0; CGMY: n <= y) -- this includes the "
         "degenerate interval [0,0] there. Tolerance: 1e-8*|ref| + 1e-12 + 1e-13*(one-sided tail moment that the closed form "
         "subtracts; Merton: the absolute moment over R); routes that the implementation evaluates with scipy.integrate.quad "
-        "(base-class n >= 3 for HEM/Merton/CGMY, CGMY one-sided x^2) get 3e-8*|ref| + 3e-8, twice quad's own epsrel/epsabs. Truncations (l, r) are non-zero "
+        "(base-class n >= 3 for HEM/Merton/CGMY, CGMY one-sided x^2) get 1e-7*|ref| + 1e-8 (measured <= 3e-10). A fixed list of past failing inputs (the quad-across-zero defect fixed by fd99be5) runs first. Truncations (l, r) are non-zero "
         "break points. non-trivial = |ref| > 1e-9 and a < b; distinct = distinct (model, route, n, a, b, truncation).")
 NOT_PROVED = [
     "CGMY closed forms (exp1 / gammaincc / gamma recursion of cgmy.py:215-276): compared with quadrature only; Mathlib has no "
@@ -245,9 +245,10 @@ def shape_of(a, b):
 
 def tolerance(ref, scale, quad_route, straddle=False):
     if quad_route:
-        # the implementation calls scipy.integrate.quad with its defaults: |err| <= max(epsabs, epsrel*|I|), both 1.49e-8.
-        # Twice that promise is the comparison rule (measured on one-sided intervals: <= 3e-10 absolute).
-        return mp.mpf("3e-8") * abs(ref) + mp.mpf("3e-8")
+        # routes the implementation evaluates with scipy.integrate.quad (defaults epsabs = epsrel = 1.49e-8), one call per
+        # side of zero since fd99be5.  Measured on the unchanged tree over seeds 0..5 (one-sided and straddling alike):
+        # |err| <= 3e-10, so 1e-8 absolute leaves a factor 30; the single-quad-across-zero defect erred by 3e-8..2e-7.
+        return mp.mpf("1e-7") * abs(ref) + mp.mpf("1e-8")
     return mp.mpf("1e-8") * abs(ref) + mp.mpf("1e-12") + mp.mpf("1e-13") * scale
 
 
@@ -716,9 +717,57 @@ def generic_fallback_probe(ctx, rng, fam, params, nside):
                          {"name": "a > b is an error (base class)", "implementation": v}, cls=dict(family=fam, target="base"))
 
 
+# past failing inputs (corpus role): base-class quadrature over an interval straddling 0, before fd99be5 off by 4e-8..2e-7
+REGRESSIONS = [
+    ("cgmy", {}, 3, -0.678, 0.0108),
+    ("cgmy", {}, 3, -0.00861, 0.265),
+    ("cgmy", {"c": 1.59, "g": 18.4, "m": 9.8, "y": 1.0}, 3, -0.0273, 0.227),
+    ("cgmy", {"c": 1.17, "g": 13.9, "m": 10.3, "y": 1.0}, 3, -0.669, 0.018),
+    ("cgmy", {"c": 0.45, "g": 11.9, "m": 5.0, "y": 1.36}, 4, -0.276, 0.039),
+    ("cgmy", {"c": 1.27, "g": 6.1, "m": 15.5, "y": 0.41}, 3, -0.925, 0.00329),
+    ("cgmy", {"c": 1.94, "g": 14.9, "m": 24.5, "y": -0.22}, 3, -0.351, 0.0224),
+]
+
+
+def regression_probe(ctx):
+    for fam, params, n, a, b in REGRESSIONS:
+        c = Case(ctx, fam, params, [-INF, a, 0.0, b, INF])
+        closed_form_probe(c, "xn", n, a, b)
+        r = b * 2.0
+        closed_form_probe(c, "xn", n, -INF, b, nu=TruncatedLevyMeasure(c.nu, (a, r)), trunc=(a, r))
+        additivity_sign_probe(c, n, "xn")
+
+
+def quad_across_zero_probe(ctx, rng, count):
+    """S: the quadrature routes on random asymmetric intervals straddling 0 against a harness-side quadrature of the
+    implementation's own density done separately on each side of the singularity"""
+    from scipy.integrate import quad
+    for i in range(count):
+        fam = "cgmy" if i % 4 else rng.choice(["hem", "merton"])
+        params = zoo.draw_params(rng, fam) if i % 7 else {}
+        _, nu = make_nu(fam, params)
+        big = float(f"{math.exp(rng.uniform(math.log(0.1), math.log(1.3))):.3g}")
+        small = float(f"{math.exp(rng.uniform(math.log(0.003), math.log(0.05))):.3g}")
+        a, b = (-big, small) if rng.random() < 0.5 else (-small, big)
+        n = rng.choice([3, 3, 4, 5])
+        with warnings.catch_warnings(), np.errstate(all="ignore"):
+            warnings.simplefilter("ignore")
+            f = lambda x: x ** n * nu(x)
+            ref = quad(f, a, 0.0)[0] + quad(f, 0.0, b)[0]
+        st, v = call(nu, "xn", n, a, b)
+        inp = dict(model_desc(fam, params), n=n, route="xn", a=a, b=b)
+        ctx.count("c09.quad_across_zero", inp, nontrivial=abs(ref) > 1e-9, branch=fam)
+        if st != "ok" or not abs(v - ref) <= float(tolerance(M(ref), 0, True)):
+            ctx.fail("oracle", "c09.quad_across_zero", inp, {"what": "x^n integral over an interval straddling 0 differs from the sum of the "
+                     "quadratures of x^n*nu(x) on each side", "implementation": v, "two_sided_quadrature": ref},
+                     cls=dict(family=fam, n=n, shape="straddle", quad_route=True))
+
+
 def run(ctx):
     _wrap(ctx)
     rng = ctx.rng
+    regression_probe(ctx)
+    quad_across_zero_probe(ctx, rng, ctx.n(200, 1500))
     nmodels = ctx.n(11, 70)
     nside = ctx.n(2, 3)
     for fam, params in zoo.model_stream(rng, nmodels):
